@@ -129,6 +129,19 @@ impl LibraryRenderer {
         Ok(())
     }
 
+    /// Writes the steps before or after a transition: one name,
+    /// or several names in parentheses.
+    fn write_steps(&mut self, steps: &[Id]) -> Result<(), Diagnostic> {
+        if steps.len() > 1 {
+            self.write_ws("(");
+        }
+        visit_comma_separated!(self, steps.iter(), Id);
+        if steps.len() > 1 {
+            self.write_ws(")");
+        }
+        Ok(())
+    }
+
     fn newline(&mut self) {
         self.buffer.push('\n');
     }
@@ -958,13 +971,25 @@ impl Visitor<Diagnostic> for LibraryRenderer {
 
     // 2.6.3
     fn visit_transition(&mut self, node: &dsl::sfc::Transition) -> Result<Self::Value, Diagnostic> {
-        self.write_ws("TRANSITION FROM");
+        self.write_ws("TRANSITION");
 
-        visit_comma_separated!(self, node.from.iter(), Id);
+        if let Some(name) = &node.name {
+            self.visit_id(name)?;
+        }
+
+        if let Some(priority) = &node.priority {
+            self.write_ws("(");
+            self.write_ws("PRIORITY");
+            self.write_ws(":=");
+            self.write_ws(priority.to_string().as_str());
+            self.write_ws(")");
+        }
+
+        self.write_ws("FROM");
+        self.write_steps(&node.from)?;
 
         self.write_ws("TO");
-
-        visit_comma_separated!(self, node.to.iter(), Id);
+        self.write_steps(&node.to)?;
         self.newline();
 
         self.indent();
